@@ -147,13 +147,18 @@ func c02Run(c *vfCtx, cs c02Case) {
 		env = "yes"
 	}
 	call := func(v string) vfCall { return vfCall{API: cs.API, Val: v, Upd: upd} }
+	if vfFormat(call(cs.S)) == vfFormat(call(cs.R)) {
+		// the property speaks about the FORMATTED value: two values that format identically are not a pair
+		c.count("pairs_formatting_identically", 1)
+		return
+	}
 	key := cs.API + "\x00" + cs.S
 	if vfSpecial(cs.S) || vfSpecial(cs.R) {
 		c.addSet("nontrivial", vfHashJSON(cs))
 	}
 	class := ""
 	multi := cs.API == "snap" || cs.API == "yaml"
-	if multi && c02K1(cs.S, cs.R) {
+	if multi && c02K1(vfFormat(call(cs.S)), vfFormat(call(cs.R))) {
 		class = "K1-escape-not-injective"
 	}
 	// record(s) once per (api, s): replays that behave do not modify anything
